@@ -26,6 +26,8 @@ PROPS = {
 }
 
 LEVEL = 'exploration'
+# where evidence/ and replays/ are written (overridden only by the mutant self-test)
+OUT_DIR = os.environ.get('AEQ_OUT_DIR') or orch.VERIF_DIR
 
 COMPONENTS = {
     'C09': (['Quantizer.calibrate', 'Calibrator', 'RecipeManager', 'algorithm_manager',
@@ -207,8 +209,8 @@ def sweep(prop, tier, seed, jobs, scratch):
       mdoc['expect'] = {'cls': cls, 'step': mv[0]['step'], 'detail': mv[0]['detail']}
       mdoc['minimised'] = {'from_ops': len(doc['ops']), 'to_ops': len(mdoc['ops']),
                            'executions': n1 + n2}
-      os.makedirs(os.path.join(orch.VERIF_DIR, 'replays'), exist_ok=True)
-      path = os.path.join(orch.VERIF_DIR, 'replays', '%s-%d.json' % (prop, doc['run_seed']))
+      os.makedirs(os.path.join(OUT_DIR, 'replays'), exist_ok=True)
+      path = os.path.join(OUT_DIR, 'replays', '%s-%d.json' % (prop, doc['run_seed']))
       with open(path, 'w') as f:
         f.write(core.dumps_json(mdoc))
       log('minimised %d -> %d operations in %d executions; confirming in fresh interpreters'
@@ -276,8 +278,8 @@ def sweep(prop, tier, seed, jobs, scratch):
         },
         'assumptions': simplify.ASSUMPTIONS[prop],
     }
-    os.makedirs(os.path.join(orch.VERIF_DIR, 'evidence'), exist_ok=True)
-    with open(os.path.join(orch.VERIF_DIR, 'evidence', prop + '.json'), 'w') as f:
+    os.makedirs(os.path.join(OUT_DIR, 'evidence'), exist_ok=True)
+    with open(os.path.join(OUT_DIR, 'evidence', prop + '.json'), 'w') as f:
       f.write(core.dumps_json(ev))
     log('evidence written; exit %d' % exit_code)
     return exit_code
